@@ -354,6 +354,8 @@ def check(ctx: Ctx):
     n3 = empty.check_cdist(ctx)
     empty.check_optional_dim(ctx)
     empty.check_slice_stop_index(ctx)
+    empty.check_unbound(ctx)
+    ctx.expect("UNBOUND", 1)
     from ..rules import purity as _pur
 
     _pur.check_mutable_defaults(ctx, ("droplets.image_analysis", "droplets.emulsions", "droplets.droplets", "droplets.droplet_tracks", "droplets.trackers"))
